@@ -528,7 +528,7 @@ def rule_arith(rep, db):
 
 
 def main(rep, tier, only):
-    db = load.load(tier, lib=False, drivers=["drv_integers"])
+    db = load.load(tier, lib=False, drivers=["drv_integers"], tests=False)   # rule tables over the driver's type registry (DESIGN §3)
     rep.extra.update(db.stats())
     files = set("libs/core/include/fcppt/" + f for f in FILES)
     rep.rule("TC", "truncation_check<D,S>: some(x) with x preserved exactly on the source regions inside D's range, nothing elsewhere (64 type pairs)", floor=64)
